@@ -129,8 +129,12 @@ def bases_cases(draw):
         pts = [[draw(st.floats(-1e3, 1e3)) for _ in range(par)] for _ in range(n)]
     if system in ("bipolar", "bispherical"):
         par = draw(st.sampled_from([1.0, 0.5, 3.0]))
+    # points handed over as a mesh of shape (n1, n2, dim) (after missed seed C19-6: a rotation that unpacks
+    # `points.T` is right for lists of points and wrong - transposed or mis-shaped - for meshes)
+    splits = [(a, n // a) for a in range(1, n + 1) if n % a == 0]
     return {"system": system, "par": par, "points": pts,
-            "comps_seed": draw(st.integers(0, 2**31)), "batch": draw(st.booleans())}
+            "comps_seed": draw(st.integers(0, 2**31)), "batch": draw(st.booleans()),
+            "mesh": list(draw(st.sampled_from(splits))) if draw(st.booleans()) else None}
 
 
 def make_system(system, par):
@@ -235,8 +239,31 @@ def check_bases(case):
         if got.shape != one.shape or not np.allclose(got, one, atol=1e-12 * (1 + np.abs(comps).max()), rtol=0):
             raise Violation(f"{system}: batched vec_to_cart differs from point-wise calls",
                             key=f"bases:{system}:vec_to_cart-batch")
-    return {"nt": system != "cart", "labels": [f"system:{system}", f"batch:{case['batch']}"],
-            "key": [system, case["par"], case["batch"], [[round(x, 6) for x in p] for p in case["points"]]]}
+    labels = [f"system:{system}", f"batch:{case['batch']}"]
+    if case.get("mesh") and system != "cart":
+        n1, n2 = case["mesh"]
+        pm = pts.reshape(n1, n2, dim)
+        want_shape = (dim, dim, n1, n2)
+        for name, arr in (("basis_rotation", R), ("mapping_jacobian", J)):
+            got = np.asarray(getattr(c, name)(pm))
+            if got.shape != want_shape:
+                raise Violation(f"{system}: {name} of a mesh of points of shape {pm.shape} has shape {got.shape}, "
+                                f"documented {want_shape}", key=f"bases:{system}:mesh-shape")
+            ref = arr.reshape(dim, dim, n1, n2)
+            if not np.allclose(got, ref, atol=1e-12 * (1 + np.abs(ref).max()), rtol=0):
+                raise Violation(f"{system}: {name} of a mesh of points of shape {pm.shape} differs from the point-wise "
+                                f"results: entry [..., i, j] does not belong to point [i, j]",
+                                key=f"bases:{system}:mesh-values")
+        got = np.asarray(c.vec_to_cart(pm, comps.reshape(dim, n1, n2)))
+        one = np.stack([np.asarray(c.vec_to_cart(p, comps[:, k])) for k, p in enumerate(pts)], axis=-1)
+        one = one.reshape((-1, n1, n2))
+        if got.shape != one.shape or not np.allclose(got, one, atol=1e-12 * (1 + np.abs(comps).max()), rtol=0):
+            raise Violation(f"{system}: vec_to_cart on a mesh of points of shape {pm.shape} differs from point-wise calls",
+                            key=f"bases:{system}:vec_to_cart-mesh")
+        labels.append("mesh:" + ("square" if n1 == n2 else "rectangular") + (">=2x2" if min(n1, n2) >= 2 else ""))
+    return {"nt": system != "cart", "labels": labels,
+            "key": [system, case["par"], case["batch"], case.get("mesh"),
+                    [[round(x, 6) for x in p] for p in case["points"]]]}
 
 
 # ---------------------------------------------------------------------------------------
